@@ -291,6 +291,7 @@ func runC04(r *Run) {
 	var msgs [][]byte
 	var partial []byte
 	var rerr error
+	cleanAfterError := ""
 	cleanEOF := false // bare io.EOF reported by a message reader for message j
 	r.S.Go("reader", func() {
 		ctx := context.Background()
@@ -318,6 +319,18 @@ func runC04(r *Run) {
 					}
 					if e != nil {
 						partial, rerr = data, e
+						// a caller that reads again on the failed reader (a bufio.Reader on
+						// top of it does) must not be told that the message ended cleanly
+						for again := 0; again < 2; again++ {
+							n2, e2 := rd.Read(buf)
+							if e2 == io.EOF {
+								cleanAfterError = fmt.Sprintf("Read #%d after the error %v returned (%d, %v)", again+1, e, n2, e2)
+								break
+							}
+							if e2 == nil {
+								partial = append(partial, buf[:n2]...)
+							}
+						}
 						return
 					}
 				}
@@ -393,6 +406,10 @@ func runC04(r *Run) {
 	}
 	if rerr == nil {
 		r.Violate("no-error", sig, "reader loop ended without error")
+		return
+	}
+	if cleanAfterError != "" {
+		r.Violate("silent-truncation", sig+",read-again", "the read of the cut message failed, but reading on told the caller that the message had ended: %s", cleanAfterError)
 		return
 	}
 	if len(msgs) > j {
